@@ -7,7 +7,7 @@
    comments), after the units (tail3), after each data row (tails i), after each transposed line
    (ttails j, blank cells).  The parsed table does not mention any of them. *)
 From Coq Require Import List Arith.
-From PdV Require Import ParseTable LayoutProofs BlockEndProofs.
+From PdV Require Import ParseTable LayoutProofs BlockEndProofs Text TextLossless.
 From PdV.Model Require Import Segment.
 Import ListNotations.
 
@@ -73,3 +73,16 @@ Theorem C10_block_end :
     In (BTable, length pre, r :: body) (segment kind_of (pre ++ r :: body ++ tail)).
 Proof. exact table_block_end. Qed.
 Print Assumptions C10_block_end.
+
+(* ... and at the level of the text: the line feed at the very end of the input is optional.  A non-empty
+   text that does not end in a line feed is read as the same lines (hence the same cell rows and the same
+   blocks) as the text with one appended; no character of the last line is lost. *)
+Theorem C10_final_line_feed_optional :
+  forall s : Text.str, s <> [] -> last s 0%N <> 10%N -> Text.lines (s ++ [10%N]) = Text.lines s.
+Proof. exact TextLossless.lines_final_lf. Qed.
+Print Assumptions C10_final_line_feed_optional.
+
+Example C10_final_line_feed_example :
+  Text.lines [42; 42; 116; 59; 10; 55; 56]%N = [[42; 42; 116; 59]; [55; 56]]%N /\
+  Text.lines [42; 42; 116; 59; 10; 55; 56; 10]%N = [[42; 42; 116; 59]; [55; 56]]%N.
+Proof. vm_compute. split; reflexivity. Qed.
